@@ -69,6 +69,7 @@ type Eval struct {
 	Incomplete bool // evaluation could not be completed (after a reported problem)
 	NDisabled  int
 	NStaticNull int
+	NNested     int
 	NMapped    int
 	NEmptyMap  int
 	NNarrow    int
@@ -563,6 +564,9 @@ func (e *Eval) evalCall(c *CallDef, sc *scope) *TV {
 	}
 	// mapped call
 	e.NMapped++
+	if sc.mapKind != 0 {
+		e.NNested++
+	}
 	var keys []string
 	var kind byte
 	first := true
